@@ -109,7 +109,7 @@ def run(ctx):
     rep.guarded("codes", F, lambda: rule_codes(facts, rep))
     rep.guarded("extended", F, lambda: rule_extended(facts, rep))
     rep.guarded("wiring", F, lambda: rule_wiring(facts, rep))
-    for r, n in (("codes", 56), ("extended", 12), ("wiring", 9)):
+    for r, n in (("codes", 56), ("extended", 12), ("wiring", 8)):
         rep.floor(r, n)
 
 
@@ -320,78 +320,29 @@ def rule_wiring(facts, rep):
             bad.append(f"parse({text!r}) = {g}, expected {w}")
     rep.count(len(want))
     rep.check(not bad, "wiring", b["path"], "no-style-for-empty-0-00", f"{len(want)} descriptions evaluated {bad[:3]}"[:400], loc(b))
-    n_early = 0
-    for st in top:
-        s0 = hir.simp(st)
-        if not (s0.get("k") == "if" and "e" not in s0 and hir.diverges(s0["t"])):
-            break
-        n_early += 1
-    # all-or-nothing numeric split
-    s1 = top[n_early] if n_early < len(top) else {}
-    ok = False
-    if s1.get("k") == "let" and s1["pat"].get("k") == "pbind":
-        t = hir.try_inner(s1["init"])
-        if t is not None:
-            t = hir.simp(t)
-            if hir.is_call(t, "Iterator::collect") and t.get("ty", "").startswith("core::option::Option<"):
-                mp = hir.simp(t["args"][0])
-                if hir.is_call(mp, "Iterator::map"):
-                    sp = hir.simp(mp["args"][0])
-                    clo = hir.simp(mp["args"][1])
-                    if hir.is_call(sp, "core::str::<impl str>::split") and hir.is_local(sp["args"][0], code) and hir.lit_val(sp["args"][1]) == ord(";") and clo.get("k") == "closure":
-                        cb = hir.simp(clo["body"])
-                        ok = hir.is_call(cb, "Result::<T, E>::ok") and hir.is_call(hir.simp(cb["args"][0]), "core::str::<impl str>::parse") and \
-                            "u8" in hir.simp(cb["args"][0]).get("ty", "")
-    if not ok and s1.get("k") == "let" and s1["pat"].get("k") == "pbind" and n_early + 1 < len(top):
-        # the same written as a loop: `let mut parts = VecDeque::new(); for f in code.split(';') { match f.parse::<u8>() { Ok(v) =>
-        # parts.push_back(v), Err(_) => return None } }`
-        init = hir.simp(s1["init"])
+    def obs(text):
         try:
-            fl = hir.for_loop(top[n_early + 1])
-        except Unrecognised:
-            fl = None
-        if hir.is_call(init, "VecDeque::<T>::new", "VecDeque::new", "new") and "VecDeque" in str(init.get("ty", "")) and "u8" in str(init.get("ty", "")) and fl:
-            pat, it, body = fl
-            sp = hir.simp(hir.peel(it))
-            inner = [hir.simp(x) for x in hir.stmts_of(body)]
-            if hir.is_call(sp, "core::str::<impl str>::split") and hir.is_local(sp["args"][0], code) and hir.lit_val(sp["args"][1]) == ord(";") \
-                    and pat.get("k") == "pbind" and len(inner) == 1 and inner[0].get("k") == "match" and len(inner[0]["arms"]) == 2:
-                m_ = inner[0]
-                sc = hir.simp(m_["scrut"])
-                arms = {hir.last_seg(hir.pat_path(a_["pat"])): a_ for a_ in m_["arms"] if not a_.get("guard")}
-                if hir.is_call(sc, "core::str::<impl str>::parse") and "u8" in sc.get("ty", "") and hir.is_local(hir.peel(sc["args"][0]), pat["name"]) \
-                        and set(arms) == {"Ok", "Err"}:
-                    okb = hir.simp(ac.single_expr(arms["Ok"]["body"]))
-                    v = arms["Ok"]["pat"]["pats"][0] if arms["Ok"]["pat"].get("k") == "pts" else {}
-                    eb = hir.simp(ac.single_expr(arms["Err"]["body"]))
-                    ok = hir.is_call(okb, "push_back") and hir.is_local(hir.peel(okb["args"][0]), s1["pat"]["name"]) and hir.is_local(okb["args"][1], v.get("name")) \
-                        and eb.get("k") == "ret" and hir.is_def(eb.get("e"), "Option::None")
-    rep.check(ok, "wiring", b["path"], "all-or-nothing-u8-split",
-              "code.split(';').map(|c| c.parse::<u8>().ok()).collect::<Option<_>>()? — one bad element rejects the whole string", loc(b, s1))
-    # four locals start empty
-    lets = {s["pat"]["name"]: s["init"] for s in top if s.get("k") == "let" and s["pat"].get("k") == "pbind" and "init" in s}
-    ok = hir.is_call(hir.simp(lets.get("effects", {})), "anstyle::effect::Effects::new") and all(hir.is_def(lets.get(v), "Option::None") for v in LOCALS.values())
-    rep.check(ok, "wiring", b["path"], "starts-from-default-style", "", loc(b))
-    # final style: Style::new().fg_color(fg_color).bg_color(bg_color).underline_color(underline_color).effects(effects)
-    tail = hir.simp(top[-1])
-    got = {}
-    if tail.get("ctor", "").endswith("Option::Some"):
-        e = hir.simp(tail["args"][0])
-        while e.get("k") == "call" and hir.callee(e).startswith("anstyle::style::Style::") and len(e["args"]) == 2:
-            got[hir.callee(e).split("::")[-1]] = hir.local_name(e["args"][1])
-            e = hir.simp(e["args"][0])
-        base_ok = hir.is_call(e, "anstyle::style::Style::new")
-    else:
-        base_ok = False
-    want = {"fg_color": "fg_color", "bg_color": "bg_color", "underline_color": "underline_color", "effects": "effects"}
-    for k, v in want.items():
-        rep.check(got.get(k) == v, "wiring", b["path"], f"result.{k}←{v}", f"{got.get(k)}", loc(b, tail))
-    rep.check(base_ok, "wiring", b["path"], "result-built-on-Style::new()", "", loc(b, tail))
-    # the locals are written only inside the code match
-    m = code_match(b)
-    outside = []
-    inside = {id(n) for n in hir.walk(m)}
-    for n in hir.walk(b["hir"]):
-        if n.get("k") in ("assign", "assignop") and hir.local_name(n["l"]) in ("effects", "fg_color", "bg_color", "underline_color") and id(n) not in inside:
-            outside.append(n)
-    rep.check(not outside, "wiring", b["path"], "locals-updated-only-by-code-arms", f"{len(outside)} writes outside the table", loc(b))
+            return observed(facts, text)
+        except Unrecognised as ex:
+            return ("not-evaluable", str(ex)[:80])
+    # all-or-nothing numeric split: one element that is not a u8 rejects the whole description, wherever it stands; what u8's FromStr
+    # accepts (a leading `+`, leading zeros) is a number
+    BD = bit["BOLD"] | bit["DIMMED"]
+    cases = {"x": None, "1;x": None, "x;1": None, "1;;2": None, ";1": None, "1;": None, "1;256": None, "256": None, "1;-1": None, "1; 2": None,
+             " 1": None, "1;2x": None, "1;0x2": None, "1;2.0": None, "1;+2": (None, None, None, BD), "+1;2": (None, None, None, BD),
+             "1;2": (None, None, None, BD), "255;1": (None, None, None, bit["BOLD"]), "1;255": (None, None, None, bit["BOLD"])}
+    bad = [f"parse({t!r}) = {obs(t)}, expected {w}" for t, w in cases.items() if obs(t) != w]
+    rep.count(len(cases))
+    rep.check(not bad, "wiring", b["path"], "all-or-nothing-u8-split", f"{len(cases)} descriptions evaluated {bad[:3]}"[:400], loc(b))
+    # a single code shows in its own slot of an otherwise default style
+    single = {"1": (None, None, None, bit["BOLD"]), "31": (("ansi", "Red"), None, None, 0), "42": (None, ("ansi", "Green"), None, 0),
+              "58;5;9": (None, None, ("idx", 9), 0), "38;5;9": (("idx", 9), None, None, 0), "48;2;1;2;3": (None, ("rgb", 1, 2, 3), None, 0)}
+    bad = [f"parse({t!r}) = {obs(t)}, expected {w}" for t, w in single.items() if obs(t) != w]
+    rep.count(len(single))
+    rep.check(not bad, "wiring", b["path"], "starts-from-default-style", f"{bad[:3]}"[:400], loc(b))
+    full = obs("1;31;42;58;5;9")
+    want_full = (("ansi", "Red"), ("ansi", "Green"), ("idx", 9), bit["BOLD"])
+    for i, k in enumerate(("fg_color", "bg_color", "underline_color", "effects")):
+        rep.check(isinstance(full, tuple) and len(full) == 4 and full[i] == want_full[i], "wiring", b["path"], f"result.{k}←{k}",
+                  f"parse('1;31;42;58;5;9') = {full}", loc(b))
+    rep.check(obs("1;31;42;58;5;9;0") == (None, None, None, 0), "wiring", b["path"], "result-built-on-Style::new()", "a final 0 gives the default style", loc(b))
